@@ -164,6 +164,8 @@ var replacements = []replacement{
 	{"list-of-maps", []interface{}{gen.OM{{K: "k", V: "v"}}}}, {"empty-map", gen.OM{}}, {"map-of-strings", gen.OM{{K: "k", V: "v"}}},
 	{"map-of-null", gen.OM{{K: "k", V: nil}}}, {"map-of-maps", gen.OM{{K: "k", V: gen.OM{{K: "kk", V: "v"}}}}}, {"huge-int", gen.Raw("99999999999999999999999")},
 	{"negative", -3},
+	// strings that are not empty and yet hold nothing: code that splits a value into words finds none
+	{"blank-string", " "}, {"tab-blank-string", "\t "}, {"newline-string", "\n"},
 }
 
 type fileCase struct {
@@ -465,7 +467,7 @@ func manyTasks(n int) string {
 
 func c15(c *h.Ctx) {
 	c.Level = "fault_enumeration"
-	c.Rule = "fault enumeration over malformed shapes: a base configuration touching every documented key; first-order mutants = every node x 17 replacements (null, scalars of each type, lists/maps of wrong element types, huge int) + deletion + unknown/empty key, each in YAML, JSON and TOML where expressible; seeded higher-order mutants; truncation at every k-th byte of all three serialisations; hand-written YAML/JSON/TOML shapes (anchors, aliases, merge keys, BOM, CRLF, NUL, invalid UTF-8, import shapes); env_file shapes. Each file: `-c F list`, `validate F`, and when it loads `show t1`, `graph p1`. Monitor: exit status in {0,1}, no panic / fatal error / goroutine dump on stderr, 10 s watchdog (re-confirmed). non-trivial = distinct file contents"
+	c.Rule = "fault enumeration over malformed shapes: a base configuration touching every documented key; first-order mutants = every node x 20 replacements (null, scalars of each type, blank-only strings, lists/maps of wrong element types, huge int) + deletion + unknown/empty key, each in YAML, JSON and TOML where expressible; seeded higher-order mutants; truncation at every k-th byte of all three serialisations; hand-written YAML/JSON/TOML shapes (anchors, aliases, merge keys, BOM, CRLF, NUL, invalid UTF-8, import shapes); env_file shapes. Each file: `-c F list`, `validate F`, and when it loads `show t1`, `graph p1`. Monitor: exit status in {0,1}, no panic / fatal error / goroutine dump on stderr, 10 s watchdog (re-confirmed). non-trivial = distinct file contents"
 	c.Assumptions = []string{"the process boundary is the observation point: argv, files, $HOME (empty) in; exit status, stderr out", "a watchdog firing once is re-confirmed three times before it counts"}
 	cases := c15cases(c)
 	c.Extra("file_cases", len(cases))
